@@ -16,8 +16,11 @@
 //! * a served record TTL above its upstream TTL - whole seconds of the age lower bound;
 //! * `Lookup::valid_until` later than end of lookup + (L - whole seconds of the age lower bound);
 //! * an upstream failure (SERVFAIL, REFUSED, timeout, busy) answered from the cache afterwards.
-//! * an alias answer served after the TTL of a CNAME that arrived in the very response that was
-//!   cached (chain in one response), even when the CNAME is no longer among the served records.
+//! * an alias answer produced from ONE upstream response (exactly one upstream query) and served from
+//!   the cache after the TTL of ANY alias link of that response, or handed out with a
+//!   `Lookup::valid_until` beyond it, even when the CNAMEs are filtered out of the served records.
+//!   This clause rests on reading "the entry's records" as the records of the response that was
+//!   cached (hickory's own documented intent, test `cname_alias_bounds_cache_lifetime`).
 //! Logged only: an alias answer served after the TTL of a CNAME of an EARLIER response of the chain
 //! that is no longer among the served records (`preserve_intermediates = false`, several hops).
 
@@ -200,6 +203,63 @@ fn worlds(thorough: bool) -> Vec<World> {
         raw.push((format!("cname-query c={c}"), vec![(Query::new(n("n.z."), RecordType::CNAME), pos(vec![cname_rec("n.z.", "t.z.", c)]))]));
     }
 
+    // alias chains of 1, 2 and 3 links: EVERY assignment of TTLs from {1, 2, 300} to the links and the
+    // terminal record (so the minimum sits on every possible position), x record order in the answer
+    // section, in ONE response and split over two responses after every link
+    {
+        let ttls = [1u32, 2, 300];
+        let owners = ["n.z.", "a1.z.", "a2.z.", "a3.z."];
+        // records of the sub-chain links from..k plus the terminal, in the given order style
+        let sub = |assign: &[u32], from: usize, upto: usize, with_terminal: bool, order: &str| -> Vec<Record> {
+            let k = assign.len() - 1;
+            let mut v: Vec<Record> = (from..upto).map(|i| cname_rec(owners[i], owners[i + 1], assign[i])).collect();
+            if with_terminal {
+                let term = a_rec(owners[k], assign[k], 1);
+                match order {
+                    "terminal-first" => v.insert(0, term),
+                    _ => v.push(term),
+                }
+            }
+            if order == "reversed" {
+                v.reverse();
+            }
+            v
+        };
+        for k in 1..=3usize {
+            let mut assigns: Vec<Vec<u32>> = vec![vec![]];
+            for _ in 0..=k {
+                assigns = assigns.into_iter().flat_map(|a| ttls.iter().map(move |t| { let mut b = a.clone(); b.push(*t); b })).collect();
+            }
+            for assign in &assigns {
+                for order in ["chain-order", "reversed", "terminal-first"] {
+                    // one response: the alias and every intermediate name answer with their whole sub-chain
+                    let mut table = vec![];
+                    for from in 0..=k {
+                        table.push((qa(owners[from]), pos(sub(assign, from, k, true, order))));
+                    }
+                    raw.push((format!("chain{k}-one-response ttls={assign:?} order={order}"), table));
+                }
+                // split after link s: the first response carries links 1..s only
+                let split_orders: &[&str] = if thorough { &["chain-order", "terminal-first", "reversed"] } else { &["chain-order", "terminal-first"] };
+                for s in 1..=k {
+                    if k == 1 && !thorough {
+                        continue; // the two-hop worlds above
+                    }
+                    for order in split_orders {
+                        let mut table = vec![];
+                        for from in 0..s {
+                            table.push((qa(owners[from]), pos(sub(assign, from, s, false, order))));
+                        }
+                        for from in s..=k {
+                            table.push((qa(owners[from]), pos(sub(assign, from, k, true, order))));
+                        }
+                        raw.push((format!("chain{k}-split-after-link{s} ttls={assign:?} order={order}"), table));
+                    }
+                }
+            }
+        }
+    }
+
     let mut out = vec![];
     for (label, table) in raw {
         // ground truth per node
@@ -226,20 +286,30 @@ fn worlds(thorough: bool) -> Vec<World> {
                             oc = Outcome::Transient;
                             break;
                         }
+                        // follow the alias links of THIS response in whatever order its records come
                         let mut owner = table[i].0.name.clone();
                         let mut found_final = false;
                         let mut aliased = false;
-                        for r in an {
-                            if r.name != owner {
-                                continue;
-                            }
-                            if r.record_type() == q.query_type {
-                                l = Some(l.map_or(r.ttl as u64, |x| x.min(r.ttl as u64)));
+                        for _ in 0..8 {
+                            let finals: Vec<&Record> = an.iter().filter(|r| r.name == owner && r.record_type() == q.query_type).collect();
+                            if !finals.is_empty() {
+                                for r in finals {
+                                    l = Some(l.map_or(r.ttl as u64, |x| x.min(r.ttl as u64)));
+                                }
                                 found_final = true;
-                            } else if let RData::CNAME(c) = &r.data {
-                                l = Some(l.map_or(r.ttl as u64, |x| x.min(r.ttl as u64)));
-                                owner = c.0.clone();
-                                aliased = true;
+                                break;
+                            }
+                            let link = an.iter().find_map(|r| match &r.data {
+                                RData::CNAME(c) if r.name == owner => Some((r.ttl as u64, c.0.clone())),
+                                _ => None,
+                            });
+                            match link {
+                                Some((ttl, target)) => {
+                                    l = Some(l.map_or(ttl, |x| x.min(ttl)));
+                                    owner = target;
+                                    aliased = true;
+                                }
+                                None => break,
                             }
                         }
                         if found_final {
@@ -278,6 +348,10 @@ struct Live {
     calls: Arc<Mutex<Vec<u32>>>,
     /// end of the last lookup during which the node was fetched upstream
     last_fetch_end: Vec<Option<Instant>>,
+    /// that lookup sent exactly ONE upstream query (the answer was produced from one response)
+    last_fetch_alone: Vec<bool>,
+    /// end of the world's first round: the later rounds are due relative to it
+    t0: Option<Instant>,
     log: Vec<Value>,
 }
 
@@ -310,20 +384,24 @@ pub fn run(thorough: bool, only: Option<&str>, l: &mut Local) -> SeamStats {
         .map(|w| {
             let calls = Arc::new(Mutex::new(vec![0u32; w.table.len()]));
             let up = Upstream { table: Arc::new(w.table.clone()), calls: calls.clone() };
-            Live { client: CachingClient::new(64, up, w.preserve), calls, last_fetch_end: vec![None; w.table.len()], log: vec![] }
+            Live { client: CachingClient::new(64, up, w.preserve), calls, last_fetch_end: vec![None; w.table.len()], last_fetch_alone: vec![false; w.table.len()], t0: None, log: vec![] }
         })
         .collect();
     let rounds_ms: Vec<u64> = if thorough { vec![0, 0, 1150, 2150, 3150, 4150] } else { vec![0, 0, 1150, 2150, 3150] };
     let start = Instant::now();
     let mut lookups = 0u64;
     for (round, off) in rounds_ms.iter().enumerate() {
-        let due = start + Duration::from_millis(*off);
-        let now = Instant::now();
-        if due > now {
-            std::thread::sleep(due - now);
-        }
+        let _ = start;
         for (wi, w) in worlds.iter().enumerate() {
             let lv = &mut live[wi];
+            // every world keeps its own schedule: round r is due `off` after the end of its first round
+            if let Some(t0) = lv.t0 {
+                let due = t0 + Duration::from_millis(*off);
+                let now = Instant::now();
+                if due > now {
+                    std::thread::sleep(due - now);
+                }
+            }
             for node in 0..w.table.len() {
                 let q = w.table[node].0.clone();
                 let before = lv.calls.lock().unwrap().clone();
@@ -335,11 +413,14 @@ pub fn run(thorough: bool, only: Option<&str>, l: &mut Local) -> SeamStats {
                 l.eval();
                 let fetched = after[node] > before[node];
                 let prev_fetch = lv.last_fetch_end[node];
+                let upstream_queries: u32 = after.iter().zip(before.iter()).map(|(a, b)| a - b).sum();
                 for y in 0..after.len() {
                     if after[y] > before[y] {
                         lv.last_fetch_end[y] = Some(t_end);
+                        lv.last_fetch_alone[y] = upstream_queries == 1;
                     }
                 }
+                let alone = lv.last_fetch_alone[node];
                 let summary = match &res {
                     Ok(lk) => json!({"ok": lk.message().all_sections().map(|r| format!("{} {} ttl={}", r.name, r.data, r.ttl)).collect::<Vec<_>>()}),
                     Err(NetError::Dns(DnsError::NoRecordsFound(nr))) => json!({"no_records": {"negative_ttl": nr.negative_ttl, "rcode": nr.response_code.to_string()}}),
@@ -381,6 +462,32 @@ pub fn run(thorough: bool, only: Option<&str>, l: &mut Local) -> SeamStats {
                         if let Some(b) = bad_ttl {
                             viol(l, if fetched { "seam:ttl-above-upstream:fresh" } else { "seam:ttl-too-high:cached" }, b, &lv.log);
                         }
+                        // the answer was produced from ONE upstream response that carried the whole alias chain:
+                        // every link of it bounds the entry, the TTL handed out and Lookup::valid_until, also
+                        // when the CNAMEs are filtered out of the served records (hickory's own documented intent,
+                        // `cname_alias_bounds_cache_lifetime`; RFC 2181 5.2 / 10.1.1)
+                        if let (true, Some(sl)) = (alone, w.same_response_l[node]) {
+                            if !fetched && age_low_ms > sl * 1000 {
+                                viol(
+                                    l,
+                                    "seam:served-after-expiry:alias-in-the-cached-response",
+                                    format!("answered from the cache at least {age_low_ms} ms after the fetch; the single cached response carried an alias link / record with TTL {sl} s"),
+                                    &lv.log,
+                                );
+                            } else if lk.valid_until() > t_end + Duration::from_secs(sl.saturating_sub(age_s)) {
+                                viol(
+                                    l,
+                                    if fetched { "seam:lookup-valid-until-beyond-L:alias-chain:fresh" } else { "seam:lookup-valid-until-beyond-L:alias-chain:cached" },
+                                    format!(
+                                        "Lookup::valid_until is {} ms after the end of the lookup; the response carried an alias link / record with TTL {sl} s, age >= {age_low_ms} ms",
+                                        lk.valid_until().saturating_duration_since(t_end).as_millis()
+                                    ),
+                                    &lv.log,
+                                );
+                            } else {
+                                l.outcome("seam:alias-chain-in-one-response:judged");
+                            }
+                        }
                         if let Some(ll) = l_letter {
                             if !fetched && age_low_ms > ll * 1000 {
                                 viol(l, "seam:served-after-expiry:positive", format!("answered from the cache at least {age_low_ms} ms after the fetch, L = {ll} s"), &lv.log);
@@ -395,16 +502,6 @@ pub fn run(thorough: bool, only: Option<&str>, l: &mut Local) -> SeamStats {
                                     );
                                 }
                                 if !fetched {
-                                    if let Some(sl) = w.same_response_l[node] {
-                                        if age_low_ms > sl * 1000 {
-                                            viol(
-                                                l,
-                                                "seam:served-after-expiry:alias-in-the-cached-response",
-                                                format!("answered from the cache at least {age_low_ms} ms after the fetch; the cached response carried a CNAME / record with TTL {sl} s"),
-                                                &lv.log,
-                                            );
-                                        }
-                                    }
                                     l.outcome("seam:cache-hit:positive");
                                     if let Some(cl) = w.chain_l[node] {
                                         if age_low_ms > cl * 1000 {
@@ -441,6 +538,9 @@ pub fn run(thorough: bool, only: Option<&str>, l: &mut Local) -> SeamStats {
                 if fetched {
                     l.outcome("seam:fetched-upstream");
                 }
+            }
+            if lv.t0.is_none() {
+                lv.t0 = Some(Instant::now());
             }
         }
     }
